@@ -98,6 +98,12 @@ impl TokenBucket {
     }
 
     fn refill(&mut self, now: LocalTime) {
+        // The clock is not guaranteed to be monotonic. If it stepped back, there is
+        // nothing to refill; keep `refilled_at`, so that the time between `now` and
+        // `refilled_at` is not credited a second time once the clock catches up.
+        if now < self.refilled_at {
+            return;
+        }
         let elapsed = now.duration_since(self.refilled_at);
         let tokens = elapsed.as_secs() as f64 * self.rate;
 
